@@ -2,7 +2,7 @@
    Both execution loops of pydra.engine.submitter.Submitter, for every oracle (= every completion
    order, several completions per wake-up, every pattern of jobs "seen running"), every
    max_concurrent, every set of failing jobs, every graph listed in topological order. *)
-From Pydra Require Import Base.Prelude Base.SchedBase Model.Sched Spec.Sched Proofs.SchedG Proofs.SchedH Proofs.SchedI.
+From Pydra Require Import Base.Prelude Base.SchedBase Model.Sched Spec.Sched Proofs.SchedG Proofs.SchedH Proofs.SchedI Proofs.SchedK Proofs.SchedL.
 
 Section C15.
 Variable V : Type.
@@ -41,6 +41,33 @@ Theorem C15_sync_all_run :
   forall fuel, o_status (run_sync V body fails vr g kmax fuel) = Finished ->
   every_job_once g (event_log (run_sync V body fails vr g kmax fuel)).
 Proof. intros. apply sync_all_run; assumption. Qed.
+
+(* Termination included: when no job fails (every node has at least one job, max_concurrent >= 1), for
+   EVERY oracle the asynchronous loop ends by itself within |jobs| + 1 iterations, and then every job
+   has been launched exactly once and has finished successfully; same for the sequential loop. *)
+Hypothesis NF : forall j, fails j = false.
+Hypothesis NJ : forall nd, In nd g -> 1 <= njobs nd.
+Hypothesis KP : forall k, kmax = Some k -> 1 <= k.
+
+Theorem C15_every_job_exactly_once :
+  forall orc fuel, List.length (all_jobs g) + 1 <= fuel ->
+  o_status (run_async V body fails vr g kmax orc fuel) = Finished
+  /\ every_job_once g (event_log (run_async V body fails vr g kmax orc fuel)).
+Proof.
+  intros orc fuel B.
+  assert (S : o_status (run_async V body fails vr g kmax orc fuel) = Finished) by (apply async_terminates; assumption).
+  split; [exact S|apply async_all_run; assumption].
+Qed.
+
+Theorem C15_sync_every_job_exactly_once :
+  forall fuel, List.length (all_jobs g) + 1 <= fuel ->
+  o_status (run_sync V body fails vr g kmax fuel) = Finished
+  /\ every_job_once g (event_log (run_sync V body fails vr g kmax fuel)).
+Proof.
+  intros fuel B.
+  assert (S : o_status (run_sync V body fails vr g kmax fuel) = Finished) by (apply sync_terminates; assumption).
+  split; [exact S|apply sync_all_run; assumption].
+Qed.
 End C15.
 
 Print Assumptions C15_safety.
@@ -49,6 +76,8 @@ Print Assumptions C15_all_run.
 Print Assumptions C15_sync_safety.
 Print Assumptions C15_sync_at_most_once.
 Print Assumptions C15_sync_all_run.
+Print Assumptions C15_every_job_exactly_once.
+Print Assumptions C15_sync_every_job_exactly_once.
 
 (* the hypotheses are met by the repaired code on a diamond with split nodes, and such a run does
    end by itself (status Finished) with all 7 jobs launched *)
